@@ -1,5 +1,5 @@
 (* Entry point evaluated by the harness-written case files for C13. *)
-From Coq Require Import NArith List.
+From Coq Require Import NArith List Bool.
 From Verif Require Import Base.Check Model.HaSync Model.HaSyncSpec.
 Import ListNotations.
 
@@ -16,3 +16,48 @@ Fixpoint run_from (i : N) (cs : list case) : list (list N) :=
       end
   end.
 Definition run_cases (cs : list case) : list (list N) := run_from 1%N cs.
+
+(* ---- end-to-end stream: the REAL standbyLoop / connectToStream / broadcastLoop over loopback HTTP.
+   The driver cannot observe every internal step of the asynchronous run, so a case is a list of
+   groups: the Model operations one end-to-end action stands for (a change while connected = Put;
+   Broadcast; Deliver — a reconnect = FullSync; Attach, as the real loop does) and the observation
+   made once the real pair went quiet (both stores, queue lengths, link).  Same row format as
+   check_case: tie-1 compares the stores with the Model's, tie-2 is clause 2 of the monitor
+   (link up, queues empty => standby = active) on the observation. *)
+Local Open Scope N_scope.
+Definition e2e_obs := (table * table * N * N * link)%type.
+Definition e2e_case := (config * list (list op * e2e_obs))%type.
+
+Fixpoint run_ops (c : config) (s : state) (mk : list N) (ops : list op) : state * list N :=
+  match ops with
+  | [] => (s, mk)
+  | o :: tl => let '(s', _, m) := step c s o in run_ops c s' (mk ++ m) tl
+  end.
+
+Fixpoint e2e_go (c : config) (i : N) (s : state) (acc : N * N * N * N * N * list N)
+                (gs : list (list op * e2e_obs)) : list N :=
+  let '(mm, ir, ic, mr, mc, mk) := acc in
+  match gs with
+  | [] => mm :: ir :: ic :: mr :: mc :: dedup mk
+  | (ops, (oa, os, pl, ql, lk)) :: tl =>
+      let '(s', mk') := run_ops c s (if ir =? 0 then mk else []) ops in
+      let mk2 := if ir =? 0 then mk' else mk in
+      let ob := mkOut oa os [] pl ql lk RNone in
+      let mm' := if (mm =? 0) && negb (teqb oa (act s') && teqb os (sby s') && link_eqb lk (lnk s'))
+                 then i else mm in
+      let '(ir', ic') := if (ir =? 0) && v2 ob then (i, 3) else (ir, ic) in
+      let '(mr', mc') := if (mr =? 0) && v2 (observe s' RNone) then (i, 3) else (mr, mc) in
+      e2e_go c (i + 1) s' (mm', ir', ic', mr', mc', mk2) tl
+  end.
+
+Definition run_e2e (c : e2e_case) : list N := e2e_go (fst c) 1 init (0, 0, 0, 0, 0, []) (snd c).
+Fixpoint run_e2e_from (i : N) (cs : list e2e_case) : list (list N) :=
+  match cs with
+  | [] => []
+  | c :: tl =>
+      match run_e2e c with
+      | [0; 0; 0; 0; 0]%N => run_e2e_from (i + 1) tl
+      | v => (i :: v) :: run_e2e_from (i + 1) tl
+      end
+  end.
+Definition run_e2e_cases (cs : list e2e_case) : list (list N) := run_e2e_from 1%N cs.
